@@ -30,14 +30,15 @@ import (
 )
 
 type pkgSpec struct {
-	rel   string // relative to repo
-	hooks []string
+	rel    string // relative to repo
+	hooks  []string
+	atomic bool // also redirect "sync/atomic" to the vatomic shim (every atomic operation a scheduling point)
 }
 
 var pkgs = []pkgSpec{
-	{"bigtable/bttest", []string{"verif_export.go"}},
-	{"storage/gcsemu", nil},
-	{"storage/gcsutil", []string{"verif_export.go"}},
+	{"bigtable/bttest", []string{"verif_export.go"}, false},
+	{"storage/gcsemu", nil, true},
+	{"storage/gcsutil", []string{"verif_export.go"}, true},
 }
 
 var importMap = map[string][2]string{
@@ -65,6 +66,11 @@ func main() {
 	overlay := map[string]string{}
 	var notes []string
 	for _, p := range pkgs {
+		if p.atomic {
+			importMap["sync/atomic"] = [2]string{"atomic", "verif/shim/vatomic"}
+		} else {
+			delete(importMap, "sync/atomic")
+		}
 		dir := filepath.Join(*repo, p.rel)
 		ents, err := os.ReadDir(dir)
 		if err != nil {
